@@ -35,6 +35,7 @@ type Program struct {
 	fvBinding    map[*ssa.FreeVar][]ssa.Value // free variable -> values bound at MakeClosure sites
 	closureOf    map[*ssa.Function][]*ssa.MakeClosure
 	cg           *CallGraph
+	cgBuilding   bool
 	roles        *Roles
 	takenCache   map[*ssa.Function]bool
 	reqTaint     map[ssa.Value]bool
